@@ -3,7 +3,7 @@ package log
 //verif:witness H_C06_policy end
 //verif:witness H_C06_order end
 //verif:bound C06 quick single-stepped worker (gated appender): every operation sequence of length 1..6 over {append event, raw write, let the worker take one}, capacity 1..2, 3 policies, against an executable FIFO queue model; per-producer order for 1..2 producers under the schedules of the C04 harness
-//verif:bound C06 thorough operation sequences of length 1..8; 2 producers with pre-emption at every visible operation (2 pre-emptive switches)
+//verif:bound C06 thorough operation sequences of length 1..8; 2 producers with pre-emption at every visible operation (1 pre-emptive switch)
 //verif:assume C06 in the single-stepped harness threads switch only when the running thread blocks, so the worker prefetches exactly one item each time the producer waits for it (the queue model accounts for that in-flight item)
 //verif:assume C06 under the Block policy the harness does not append to a full buffer while the worker is held (the call would wait, as specified)
 //verif:engine-only H_C06_policy
